@@ -109,7 +109,7 @@ def main():
         rc, keys, err = check(prop, d, f"{kind}-{n}-{prop}")
         new = sorted(keys - basekeys[(prop, base)])
         return prop, kind, n, meta, rc, new, err
-    with ThreadPoolExecutor(max_workers=15) as ex:
+    with ThreadPoolExecutor(max_workers=5) as ex:
         res = list(ex.map(work, jobs))
     bad_b = bad_s = gap_b = gap_s = ok_b = ok_s = 0
     for prop, kind, n, meta, rc, new, err in res:
@@ -138,6 +138,12 @@ def main():
             elif rc != 0 and (new or rc == 2):
                 print(f"cross       {prop} {n} (breaks {meta['breaks_property']}): rc={rc} {[k.split('|')[0] for k in new][:5]} {(err or [''])[0][:120]}")
     print(f"SUMMARY {','.join(props)}: benign ok={ok_b} false-alarm={bad_b} gap={gap_b} | own seeds detected={ok_s} missed={bad_s} gap={gap_s}")
+    if "--json" in flags:
+        out = flags[flags.index("--json") + 1]
+        data = json.load(open(out)) if os.path.exists(out) else {}
+        for prop, kind, n, meta, rc, new, err in res:
+            data.setdefault(kind, {}).setdefault(n, {})[prop] = {"rc": rc, "rules": sorted({k.split("|")[0] for k in new}), "keys": new[:6]}
+        json.dump(data, open(out, "w"), indent=1)
 
 
 if __name__ == "__main__":
